@@ -16,7 +16,7 @@ import (
 
 // AUTHENTICATION RESPONSE (8.2.2): 7E 00 57, then IEI 2D, length 16, RES*.
 //
-// prop: C09
+// prop: C09 C01 C02
 // inline: *
 // shape: res 16
 func vcLemma_wire_AuthenticationResponse(res []byte) {
@@ -29,7 +29,7 @@ func vcLemma_wire_AuthenticationResponse(res []byte) {
 
 // REGISTRATION COMPLETE (8.2.8) without SOR container: 7E 00 43.
 //
-// prop: C09
+// prop: C09 C01 C02
 // inline: *
 func vcLemma_wire_RegistrationComplete() {
 	w := GetRegistrationComplete(nil)
@@ -39,7 +39,7 @@ func vcLemma_wire_RegistrationComplete() {
 // SECURITY MODE COMPLETE (8.2.26): 7E 00 5E, IMEISV (IEI 77, TLV-E, 9 octets, type of identity
 // IMEISV = 101), NAS message container (IEI 71, TLV-E) carrying the given octets.
 //
-// prop: C09
+// prop: C09 C01 C02
 // inline: *
 func vcLemma_wire_SecurityModeComplete(c []byte) {
 	vc.Assume(len(c) < 1<<16 && c != nil)
@@ -55,7 +55,7 @@ func vcLemma_wire_SecurityModeComplete(c []byte) {
 // bits 3..1 with FOR (bit 4) set and ngKSI "no key available" (TSC 0, value 111) in bits 8..5; 5GS
 // mobile identity LV-E; UE security capability (IEI 2E, TLV).
 //
-// prop: C09
+// prop: C09 C01 C02
 // inline: *
 // shape: cap 2
 func vcLemma_wire_RegistrationRequest_initial(regType uint8, id []byte, cap []byte) {
@@ -74,7 +74,7 @@ func vcLemma_wire_RegistrationRequest_initial(regType uint8, id []byte, cap []by
 // The same with the 5GMM capability (IEI 10, TLV, one octet), which precedes the UE security
 // capability (table 8.2.6.1.1), as sent in the NAS message container of SECURITY MODE COMPLETE.
 //
-// prop: C09
+// prop: C09 C01 C02
 // inline: *
 // shape: cap 2
 func vcLemma_wire_RegistrationRequest_with5GMM(regType uint8, id []byte, cap []byte, mm uint8) {
@@ -95,7 +95,7 @@ func vcLemma_wire_RegistrationRequest_with5GMM(regType uint8, id []byte, cap []b
 // (switch off bit 4, re-registration required 0, access type bits 2..1), ngKSI in bits 8..5; 5GS
 // mobile identity LV-E.
 //
-// prop: C09
+// prop: C09 C01 C02
 // inline: *
 func vcLemma_wire_DeregistrationRequest(accessType, switchOff, ksi uint8, id []byte) {
 	vc.Assume(len(id) < 1<<16 && ksi < 8)
@@ -113,7 +113,7 @@ func vcLemma_wire_DeregistrationRequest(accessType, switchOff, ksi uint8, id []b
 // bits 8..5; 5G-S-TMSI LV-E of 7 octets with type of identity 100 in the first; uplink data status
 // (IEI 40, TLV, 2 octets).
 //
-// prop: C09
+// prop: C09 C01 C02
 // inline: *
 func vcLemma_wire_ServiceRequest_data() {
 	w := GetServiceRequest(1)
@@ -128,7 +128,7 @@ func vcLemma_wire_ServiceRequest_data() {
 // container type N1 SM information (1) in bits 4..1; payload container LV-E with the 5GSM message
 // 2E <PDU session ID> <PTI> D1; PDU session ID IE (IEI 12, TV).
 //
-// prop: C09
+// prop: C09 C01 C02
 // inline: *
 func vcLemma_wire_UlNasTransport_releaseRequest(psi uint8) {
 	w := GetUlNasTransport_PduSessionReleaseRequest(psi)
@@ -142,7 +142,7 @@ func vcLemma_wire_UlNasTransport_releaseRequest(psi uint8) {
 // type (IEI 8-, half octet), S-NSSAI (IEI 22, TLV: SST and SD) and DNN (IEI 25, TLV; the value is one
 // label preceded by its length, TS 23.003 9.1) in the order of table 8.2.10.1.1.
 //
-// prop: C09
+// prop: C09 C01 C02
 // inline: *
 // shape: sd 6 dnn 8
 func vcLemma_wire_UlNasTransport_releaseComplete(psi uint8, rt uint8, sst uint8, sd string, dnn string) {
@@ -163,7 +163,7 @@ func vcLemma_wire_UlNasTransport_releaseComplete(psi uint8, rt uint8, sst uint8,
 // session type IPv4 (IEI 9-, value 001), extended protocol configuration options (IEI 7B, TLV-E)
 // to the end of the container; then the IEs of the transport message as above.
 //
-// prop: C09
+// prop: C09 C01 C02
 // inline: *
 // shape: sd 6 dnn 8
 func vcLemma_wire_UlNasTransport_establishment(psi uint8, rt uint8, sst uint8, sd string, dnn string) {
